@@ -26,3 +26,30 @@ package crypto
 //@   trusted_frame delegates to the etype
 //@   ensures err == nil <==> krb_dec_ok(key.KeyType, bytes(key.KeyValue), usage, bytes(ed.Cipher))
 //@   ensures err == nil ==> bytes(b) == krb_dec_pt(key.KeyType, bytes(key.KeyValue), usage, bytes(ed.Cipher))
+
+// Property C08, RFC 4120 5.2.7.5: when a PA-ETYPE-INFO2 element is present, the key is derived with the etype, salt
+// and parameters of its first entry, wherever the element stands relative to PA-ETYPE-INFO and PA-PW-SALT
+// (the last PA-ETYPE-INFO2 if there are several); without any of the three elements the requested etype, the
+// default salt (PrincipalName.GetSalt) and the etype's default parameters are used. An empty salt means the default.
+//@ define s2k_pa_info2(v, pw) := et_s2k(tag_of_etype(eti2_etype(v)), pw, ite(len(eti2_salt(v)) == 0, defaultSalt, eti2_salt(v)),
+//@     ite(len(eti2_s2kp(v)) == 4, hexenc(eti2_s2kp(v)), et_defparams(tag_of_etype(eti2_etype(v)))))
+//@ func crypto.GetKeyFromPassword(passwd, cname, realm, etypeID, pas) (key, et, err)
+//@   ensures err == nil ==> key.KeyType == etypeID
+//@   ensures err == nil && (exists i int :: 0 <= i && i < len(pas) && pas[i].PADataType == 19) ==> exists j int :: 0 <= j && j < len(pas) && pas[j].PADataType == 19
+//@        && (forall m int :: j < m && m < len(pas) ==> pas[m].PADataType != 19)
+//@        && tagof(et) == tag_of_etype(eti2_etype(bytes(pas[j].PADataValue)))
+//@        && bytes(key.KeyValue) == s2k_pa_info2(bytes(pas[j].PADataValue), bytes(passwd))
+//@   ensures err == nil && (forall i int :: 0 <= i && i < len(pas) ==> pas[i].PADataType != 3 && pas[i].PADataType != 11 && pas[i].PADataType != 19)
+//@        ==> bytes(key.KeyValue) == et_s2k(tag_of_etype(etypeID), bytes(passwd), defaultSalt, et_defparams(tag_of_etype(etypeID)))
+//@   loop 1 invariant -1 <= rangeindex && rangeindex < len(pas)
+//@   loop 1 invariant paID == 0 || paID == 3 || paID == 11 || paID == 19
+//@   loop 1 invariant et_known(tagof(et))
+//@   loop 1 invariant paID != 19 ==> (forall i int :: 0 <= i && i <= rangeindex ==> pas[i].PADataType != 19)
+//@   loop 1 invariant paID == 0 ==> (forall i int :: 0 <= i && i <= rangeindex ==> pas[i].PADataType != 3 && pas[i].PADataType != 11 && pas[i].PADataType != 19)
+//@   loop 1 invariant paID != 0 ==> (exists i int :: 0 <= i && i <= rangeindex && (pas[i].PADataType == 3 || pas[i].PADataType == 11 || pas[i].PADataType == 19))
+//@   loop 1 invariant paID == 0 ==> tagof(et) == tag_of_etype(etypeID) && len(salt) == 0 && len(sk2p) == 0
+//@   loop 1 invariant paID == 19 ==> exists j int :: 0 <= j && j <= rangeindex && pas[j].PADataType == 19
+//@        && (forall m int :: j < m && m <= rangeindex ==> pas[m].PADataType != 19)
+//@        && tagof(et) == tag_of_etype(eti2_etype(bytes(pas[j].PADataValue))) && bytes(salt) == eti2_salt(bytes(pas[j].PADataValue))
+//@        && (len(eti2_s2kp(bytes(pas[j].PADataValue))) == 4 ==> sk2p == hexenc(eti2_s2kp(bytes(pas[j].PADataValue))))
+//@        && (len(eti2_s2kp(bytes(pas[j].PADataValue))) != 4 ==> len(sk2p) == 0)
